@@ -73,6 +73,14 @@ CHECKS = {
                      'add_namespace_reference, switch_to_target_namespace, make_abbreviated_namespace, RustDocument::extend and the module/attribute emitters is executed and z3 '
                      'decides per path whether prefix<->URI<->module is a bijection over everything emitted, each module is declared once and every field prefix is declared.',
                 note='trusted: SMI environment models; <= 4 namespaces over 5 (quick) / 8 (thorough) URIs; three known findings (cross-file abbreviation) are keyed by assertion + origin class'),
+    'C05': dict(engine='E2-smi', cat='model_checking', design='4/C05',
+                technique='symbolic execution of the WSDL reader + binding/service emitter MIR over parametrised WSDLs; z3 decides identifier agreement and envelope structure per path',
+                text='The MIR of SoapMessage/SoapPort/SoapBinding/SoapService::try_from_node, write_soap_operation, write_async_soap_call and SoapService::write_xml is executed on '
+                     'WSDLs whose operation name style, body element name style, part name, parts= presence, output presence, service name and number of bound header parts are symbolic. '
+                     'Per path z3 decides whether some assignment breaks: one snake_case method per operation; its request/response types are envelope structs the output defines; the '
+                     'Body holds exactly the element of the bound part (rename = element name, type = the struct generated for it, defined in its module); one Header member per bound '
+                     'header part under the element\'s own name; response envelope iff output; address literal = soap:address.',
+                note='trusted: SMI environment models; serialization itself (yaserde) is outside; two operations, <= 2 header parts; single-part bodies when parts= is absent'),
 }
 
 NA = {
@@ -80,7 +88,7 @@ NA = {
     'C04': 'deserialization and round-trip are executed by yaserde derive expansion and xml-rs at run time (fmt/dyn/heap); CBMC cannot get through it and the MIR interpreter covers zeep, not yaserde',
     'C18': 'Send/Sync are auto-trait facts computed by rustc from the coroutine layout, not properties of executions a bounded symbolic run can falsify',
 }
-PENDING = ['C05', 'C07', 'C13', 'C14', 'C16', 'C17']
+PENDING = ['C07', 'C13', 'C14', 'C16', 'C17']
 
 
 def main():
